@@ -54,6 +54,7 @@ type target struct {
 	Imports     []string             `json:"imports"`      // further Lean modules the group's file imports
 	IterBody    bool                 `json:"iter_body"`    // the function returns an iterator: translate the body of the innermost function literal with a `yield` parameter; `if !yield(x) { return }` appends x to the fragments, which are the result (a consumer that never stops early)
 	ResultRecv  bool                 `json:"result_recv"`  // a method without results that writes to its (pointer) receiver: the receiver's final value is the result
+	FuncLit     int                  `json:"func_lit"`     // n > 0: what is translated is the n-th function literal of the body (in source order) — a closure invoked in place, say —, over the parameters of the function and its own
 	Curried     bool                 `json:"curried"`      // the function's body is `return func(…) … { … }`: the literal's body is translated, over the parameters of both
 	OutParams   []string             `json:"out_params"`   // parameters the function writes to (an io.Writer): threaded through as text, returned as the result
 	Props       []string             `json:"props"`
@@ -631,8 +632,18 @@ func (f *fn) call(x *ast.CallExpr, pre *[]string) string {
 		}
 		bad("conversion %s", f.text(x))
 	}
+	written := ""
 	if id, ok := x.Fun.(*ast.Ident); ok {
-		if pn, ok := f.t.Funcs[id.Name]; ok {
+		written = id.Name
+	} else if sel, ok := x.Fun.(*ast.SelectorExpr); ok {
+		if q, ok := sel.X.(*ast.Ident); ok {
+			if _, isPkg := f.info.Uses[q].(*types.PkgName); isPkg {
+				written = q.Name + "." + sel.Sel.Name // a function of another package, as written
+			}
+		}
+	}
+	if written != "" {
+		if pn, ok := f.t.Funcs[written]; ok {
 			// a callee that is not translated: a parameter of the translation (the theorems hold for every such function)
 			var arg string
 			if x.Ellipsis.IsValid() && len(x.Args) == 1 {
@@ -2104,6 +2115,22 @@ func (f *fn) forLoop(x *ast.ForStmt, rest []ast.Stmt, k konts) ([]string, bool) 
 
 func (f *fn) translate() string {
 	sig := f.info.Defs[f.decl.Name].(*types.Func).Type().(*types.Signature)
+	if f.t.FuncLit > 0 {
+		n := 0
+		ast.Inspect(f.decl.Body, func(nd ast.Node) bool {
+			if fl, ok := nd.(*ast.FuncLit); ok {
+				n++
+				if n == f.t.FuncLit {
+					f.curried = fl
+				}
+			}
+			return true
+		})
+		if f.curried == nil {
+			bad("func_lit: the body has no function literal number %d", f.t.FuncLit)
+		}
+		sig = f.info.TypeOf(f.curried).(*types.Signature)
+	}
 	if f.t.Curried {
 		if len(f.decl.Body.List) == 1 {
 			if r, ok := f.decl.Body.List[0].(*ast.ReturnStmt); ok && len(r.Results) == 1 {
